@@ -1,6 +1,6 @@
 /-
 C12 helper lemmas, part 2: the executable monitor of `Spec/ClientTrace.lean` is sound for the
-ordering predicates (pure list reasoning; nothing about the program).
+trace predicates (pure list reasoning; nothing about the program).
 -/
 import SshuttleModel.Spec.ClientTrace
 
@@ -14,15 +14,19 @@ theorem monOf_append (a b : List Ev) : monOf (a ++ b) = b.foldl Mon.step (monOf 
   simp [monOf, List.foldl_append]
 
 theorem step_bad_mono (m : Mon) (e : Ev) (h : m.bad = true) : (m.step e).bad = true := by
-  cases e <;> simp [Mon.step, h]
+  cases e <;> simp [Mon.step, Mon.core, h]
   case fw l => cases l <;> simp [h]
 
 theorem step_closed_mono (m : Mon) (e : Ev) (h : m.closed = true) : (m.step e).closed = true := by
-  cases e <;> simp [Mon.step, h]
+  cases e <;> simp [Mon.step, Mon.core, h]
+  case fw l => cases l <;> simp [h]
+
+theorem step_dead_mono (m : Mon) (e : Ev) (h : m.dead = true) : (m.step e).dead = true := by
+  cases e <;> simp [Mon.step, Mon.core, h]
   case fw l => cases l <;> simp [h]
 
 theorem step_starts_mono (m : Mon) (e : Ev) : m.starts ≤ (m.step e).starts := by
-  cases e <;> simp [Mon.step]
+  cases e <;> simp [Mon.step, Mon.core]
   case fw l => cases l <;> simp
 
 theorem foldl_bad_mono (l : List Ev) (m : Mon) (h : m.bad = true) : (l.foldl Mon.step m).bad = true := by
@@ -35,6 +39,12 @@ theorem foldl_closed_mono (l : List Ev) (m : Mon) (h : m.closed = true) :
   induction l generalizing m with
   | nil => exact h
   | cons e l ih => exact ih _ (step_closed_mono m e h)
+
+theorem foldl_dead_mono (l : List Ev) (m : Mon) (h : m.dead = true) :
+    (l.foldl Mon.step m).dead = true := by
+  induction l generalizing m with
+  | nil => exact h
+  | cons e l ih => exact ih _ (step_dead_mono m e h)
 
 theorem foldl_starts_mono (l : List Ev) (m : Mon) : m.starts ≤ (l.foldl Mon.step m).starts := by
   induction l generalizing m with
@@ -51,116 +61,152 @@ theorem decomp_bad {t pre post : List Ev} {e : Ev} (ht : t = pre ++ e :: post)
   | false => rfl
   | true => rw [foldl_bad_mono post _ hb] at h; cases h
 
-theorem hs_mem' (l : List Ev) (m : Mon) (h : (l.foldl Mon.step m).hs = true) :
-    m.hs = true ∨ Ev.hsOk ∈ l := by
+/-- Generic "a flag that only event class `p` can set": if it is set after `l`, it was set before or
+an event of the class is in `l`. -/
+theorem flag_mem (flag : Mon → Bool) (p : Ev → Prop)
+    (hstep : ∀ m e, ¬ p e → (m.step e |> flag) = true → flag m = true)
+    (l : List Ev) (m : Mon) (h : flag (l.foldl Mon.step m) = true) :
+    flag m = true ∨ ∃ e ∈ l, p e := by
   induction l generalizing m with
   | nil => exact Or.inl h
   | cons e l ih =>
-    rcases ih _ h with h' | h'
-    · by_cases he : e = Ev.hsOk
-      · right; simp [he]
-      · left
-        have : (m.step e).hs = m.hs := by
-          cases e <;> simp [Mon.step] at he ⊢
-          case fw l => cases l <;> simp
-        rw [this] at h'; exact h'
-    · right; exact List.mem_cons_of_mem _ h'
+    rcases ih _ h with h' | ⟨x, hx, hp⟩
+    · by_cases he : p e
+      · exact Or.inr ⟨e, by simp, he⟩
+      · exact Or.inl (hstep m e he h')
+    · exact Or.inr ⟨x, List.mem_cons_of_mem _ hx, hp⟩
 
-theorem hs_mem (t : List Ev) (h : (monOf t).hs = true) : Ev.hsOk ∈ t := by
-  rcases hs_mem' t {} h with h' | h'
+theorem hs_mem (t : List Ev) (h : (monOf t).hs = true) : ∃ b, Ev.hsOk b ∈ t := by
+  rcases flag_mem (·.hs) (fun e => ∃ b, e = Ev.hsOk b) (fun m e he h => by
+      cases e <;> simp [Mon.step, Mon.core] at he h ⊢ <;> try exact h
+      case fw l => cases l <;> simpa using h) t {} h with h' | ⟨e, he, b, rfl⟩
   · cases h'
-  · exact h'
-
-theorem routes_mem' (l : List Ev) (m : Mon) (h : (l.foldl Mon.step m).routes = true) :
-    m.routes = true ∨ Ev.routes ∈ l := by
-  induction l generalizing m with
-  | nil => exact Or.inl h
-  | cons e l ih =>
-    rcases ih _ h with h' | h'
-    · by_cases he : e = Ev.routes
-      · right; simp [he]
-      · left
-        have : (m.step e).routes = m.routes := by
-          cases e <;> simp [Mon.step] at he ⊢
-          case fw l => cases l <;> simp
-        rw [this] at h'; exact h'
-    · right; exact List.mem_cons_of_mem _ h'
+  · exact ⟨b, he⟩
 
 theorem routes_mem (t : List Ev) (h : (monOf t).routes = true) : Ev.routes ∈ t := by
-  rcases routes_mem' t {} h with h' | h'
+  rcases flag_mem (·.routes) (· = Ev.routes) (fun m e he h => by
+      cases e <;> simp [Mon.step, Mon.core] at he h ⊢ <;> try exact h
+      case fw l => cases l <;> simpa using h) t {} h with h' | ⟨e, he, rfl⟩
   · cases h'
-  · exact h'
-
-theorem confirmed_mem' (l : List Ev) (m : Mon) (h : (l.foldl Mon.step m).confirmed = true) :
-    m.confirmed = true ∨ Ev.started ∈ l := by
-  induction l generalizing m with
-  | nil => exact Or.inl h
-  | cons e l ih =>
-    rcases ih _ h with h' | h'
-    · by_cases he : e = Ev.started
-      · right; simp [he]
-      · left
-        have : (m.step e).confirmed = m.confirmed := by
-          cases e <;> simp [Mon.step] at he ⊢
-          case fw l => cases l <;> simp
-        rw [this] at h'; exact h'
-    · right; exact List.mem_cons_of_mem _ h'
+  · exact he
 
 theorem confirmed_mem (t : List Ev) (h : (monOf t).confirmed = true) : Ev.started ∈ t := by
-  rcases confirmed_mem' t {} h with h' | h'
+  rcases flag_mem (·.confirmed) (· = Ev.started) (fun m e he h => by
+      cases e <;> simp [Mon.step, Mon.core] at he h ⊢ <;> try exact h
+      case fw l => cases l <;> simpa using h) t {} h with h' | ⟨e, he, rfl⟩
   · cases h'
-  · exact h'
+  · exact he
+
+theorem closed_mem' (l : List Ev) (m : Mon) (h : (l.foldl Mon.step m).closed = true) :
+    m.closed = true ∨ Ev.close ∈ l := by
+  rcases flag_mem (·.closed) (· = Ev.close) (fun m e he h => by
+      cases e <;> simp [Mon.step, Mon.core] at he h ⊢ <;> try exact h
+      case fw l => cases l <;> simpa using h) l m h with h' | ⟨e, he, rfl⟩
+  · exact Or.inl h'
+  · exact Or.inr he
 
 theorem starts_pos_of_mem (pre post : List Ev) :
     1 ≤ (monOf (pre ++ Ev.fw .routes :: post)).starts := by
   rw [monOf_append]
   simp only [List.foldl_cons]
   refine Nat.le_trans ?_ (foldl_starts_mono post _)
-  simp [Mon.step]
+  simp [Mon.step, Mon.core]
 
 theorem closed_of_mem (pre post : List Ev) : (monOf (pre ++ Ev.close :: post)).closed = true := by
   rw [monOf_append]
   simp only [List.foldl_cons]
-  exact foldl_closed_mono post _ (by simp [Mon.step])
+  exact foldl_closed_mono post _ (by simp [Mon.step, Mon.core])
 
-/-- **Monitor soundness.**  A trace on which the monitor never complained satisfies the three
-ordering rules, and nothing happens to the control channel after it was closed. -/
-theorem mon_sound (t : List Ev) (h : (monOf t).bad = false) :
-    Ordered t ∧
-    (∀ pre post, t = pre ++ Ev.close :: post → ∀ x ∈ post, isPfileUse x = false ∧ x ≠ Ev.close) := by
-  refine ⟨⟨?_, ?_, ?_, ?_⟩, ?_⟩
+theorem dead_of_mem (pre post : List Ev) : (monOf (pre ++ Ev.sshDead :: post)).dead = true := by
+  rw [monOf_append]
+  simp only [List.foldl_cons]
+  exact foldl_dead_mono post _ (by simp [Mon.step, Mon.core])
+
+theorem lastProbe_snoc (t : List Ev) (h : (monOf t).lastProbe = true) :
+    ∃ pre' p, t = pre' ++ [p] ∧ isProbe p = true := by
+  rcases List.eq_nil_or_concat t with rfl | ⟨pre', p, ht⟩
+  · simp [monOf] at h
+  · rw [List.concat_eq_append] at ht
+    subst ht
+    refine ⟨pre', p, rfl, ?_⟩
+    rw [monOf_snoc] at h
+    simpa [Mon.step] using h
+
+/-- **Monitor soundness.**  A trace on which the monitor never complained and which it saw closed
+satisfies every trace rule of the specification. -/
+theorem mon_sound (t : List Ev) (h : (monOf t).bad = false) (hc : (monOf t).closed = true) :
+    Ordered t ∧ ClosedOnce t ∧ DeadTunnelReleased t ∧ ProbeBeforeEachPass t ∧ AcceptOnlyGenuine t := by
+  refine ⟨⟨?_, ?_, ?_, ?_⟩, ⟨?_, ?_, ?_⟩, ⟨?_, ?_⟩, ?_, ?_⟩
   · intro pre e post ht he
     have hb := decomp_bad ht h
     unfold IsFwStart at he; subst he
-    simp [Mon.step] at hb
-    exact ⟨_, hs_mem pre hb.1.1.1.2, rfl⟩
+    simp [Mon.step, Mon.core] at hb
+    obtain ⟨b, hb'⟩ := hs_mem pre hb.1.1.1.1.2
+    exact ⟨_, hb', b, rfl⟩
   · intro pre e post ht he
     have hb := decomp_bad ht h
     unfold IsFwStart at he; subst he
-    simp [Mon.step] at hb
-    exact ⟨_, routes_mem pre hb.1.1.2, rfl⟩
+    simp [Mon.step, Mon.core] at hb
+    exact ⟨_, routes_mem pre hb.1.1.1.2, rfl⟩
   · intro pre e post ht he x hx hx'
     unfold IsFwStart at he hx'; subst he; subst hx'
     obtain ⟨p1, p2, hp⟩ := List.append_of_mem hx
     have ht' : t = (pre ++ Ev.fw .routes :: p1) ++ Ev.fw .routes :: p2 := by
       rw [ht, hp]; simp
     have hb := decomp_bad ht' h
-    simp [Mon.step] at hb
+    simp [Mon.step, Mon.core] at hb
     have := starts_pos_of_mem pre p1
     omega
   · intro pre e post ht he
     have hb := decomp_bad ht h
     unfold IsNotifyReady at he; subst he
-    simp [Mon.step] at hb
-    exact ⟨_, confirmed_mem pre hb.2, rfl⟩
-  · intro pre post ht x hx
+    simp [Mon.step, Mon.core] at hb
+    exact ⟨_, confirmed_mem pre hb.1.2, rfl⟩
+  · -- close occurs
+    rcases closed_mem' t {} hc with h' | h'
+    · cases h'
+    · exact h'
+  · intro pre e post ht he x hx hx'
+    subst he; subst hx'
+    obtain ⟨p1, p2, hp⟩ := List.append_of_mem hx
+    have ht' : t = (pre ++ Ev.close :: p1) ++ Ev.close :: p2 := by rw [ht, hp]; simp
+    have hb := decomp_bad ht' h
+    have hcl := closed_of_mem pre p1
+    simp [Mon.step, Mon.core, hcl] at hb
+  · intro pre e post ht he x hx hx'
+    subst he
     obtain ⟨p1, p2, hp⟩ := List.append_of_mem hx
     have ht' : t = (pre ++ Ev.close :: p1) ++ x :: p2 := by rw [ht, hp]; simp
     have hb := decomp_bad ht' h
-    have hc := closed_of_mem pre p1
-    constructor
-    · cases x <;> simp [isPfileUse] <;> simp [Mon.step, hc] at hb
-      case fw l => cases l <;> simp [Mon.step, hc] at hb
-    · intro hx; subst hx; simp [Mon.step, hc] at hb
+    have hcl := closed_of_mem pre p1
+    cases x <;> simp [isPfileUse] at hx' <;> simp [Mon.step, Mon.core, hcl] at hb
+    case fw l => cases l <;> simp [Mon.step, Mon.core, hcl] at hb
+  · intro pre e post ht he x hx hx'
+    unfold IsSshDead at he; subst he
+    obtain ⟨p1, p2, hp⟩ := List.append_of_mem hx
+    have ht' : t = (pre ++ Ev.sshDead :: p1) ++ x :: p2 := by rw [ht, hp]; simp
+    have hb := decomp_bad ht' h
+    have hd := dead_of_mem pre p1
+    cases x <;> simp [isSessionUse] at hx' <;> simp [Mon.step, Mon.core, hd] at hb
+    case fw l => cases l <;> simp [Mon.step, Mon.core, hd] at hb
+  · intro pre post ht
+    have hb := decomp_bad ht h
+    simp [Mon.step, Mon.core] at hb
+    have hcl : (monOf (pre ++ [Ev.sshDead])).closed = false := by
+      rw [monOf_snoc]; simp [Mon.step, Mon.core, hb.2]
+    have : t = (pre ++ [Ev.sshDead]) ++ post := by rw [ht]; simp
+    rw [this, monOf_append] at hc
+    rcases closed_mem' post _ hc with h' | h'
+    · rw [hcl] at h'; cases h'
+    · exact h'
+  · intro pre i post ht
+    have hb := decomp_bad ht h
+    simp [Mon.step, Mon.core] at hb
+    exact lastProbe_snoc pre hb.1.2
+  · intro b hb
+    obtain ⟨p1, p2, hp⟩ := List.append_of_mem hb
+    have hbad := decomp_bad hp h
+    simp [Mon.step, Mon.core] at hbad
+    exact hbad.2
 
 end Sshuttle.ClientTrace
